@@ -946,6 +946,7 @@ func (ip *Interp) prepareCall(fr *frame, c *ssa.CallCommon) (Value, []Value) {
 
 type nativeObjMethods struct {
 	methods map[string]*NativeFunc
+	obj     any
 }
 
 func (n *nativeObjMethods) method(name string) Value {
